@@ -22,7 +22,10 @@ STATS = ['count', 'total', 'min', 'max', 'mean', 'variance-n', 'variance', 'stan
          'standard-deviation', 'median']
 SRC = ('<dtml-in seq%s><dtml-if sequence-end>' + '|'.join('%s=<dtml-var %s-x>' % (s, s) for s in STATS) +
        '</dtml-if></dtml-in>')
-REAL = [('int', 1, 0), ('float', 1.0, 0.0), ('quarter', 0.25, 0.0), ('fine', 2.0 ** -15, 0.5)]
+REAL = [('int', 1, 0), ('float', 1.0, 0.0), ('quarter', 0.25, 0.0), ('fine', 2.0 ** -15, 0.5),
+        # mixed lists: halves, where the integral values are ints and the others floats (with and without an offset, so that
+        # an int follows a fractional float in sorted order and vice versa)
+        ('mixhalf', 0.5, 0.0), ('mixhalf-off', 0.5, 0.5)]
 NAMES = {1: 'a', 2: 'b', 3: 'c'}
 
 
@@ -79,6 +82,8 @@ def observe(item):
                     v = x['v'] * u + off
                     if rname == 'int':
                         v = int(x['v'])
+                    elif rname.startswith('mix') and v == int(v):
+                        v = int(v)
                 else:
                     v = NAMES[x['v']]
                 if mapping:
